@@ -1,5 +1,5 @@
 PROP = dict(
-    go='c14', n_quick=300, n_thorough=6000,
+    go='c14', n_quick=500, n_thorough=8000,
     coq_header='From LC Require Import Lib.Bytes Model.AtomParse Model.DepParse Model.PMSGrammar Cases.C14.\n'
                'Open Scope string_scope.\n',
     case_type='C14.case', verdict='C14.verdict', explain='C14.model',
